@@ -341,6 +341,53 @@ func (ip *Interp) model2(fn *ssa.Function, name string, args []AV) (AV, bool) {
 	case "(time.Time).Second":
 		return kInt(int64(ip.timeOf(args[0]).T.Second())), true
 	}
+	// ---- sync.Mutex / RWMutex with a single thread of control: a second Lock is a self-deadlock
+	if strings.HasPrefix(name, "(*sync.Mutex).") || strings.HasPrefix(name, "(*sync.RWMutex).") {
+		p, ok := args[0].(*Ptr)
+		if !ok {
+			ood("mutex receiver")
+		}
+		if ip.Atomics == nil {
+			ip.Atomics = map[string]AV{}
+		}
+		k := "mutex:" + atomKey(p)
+		held := 0
+		if v, ok := ip.Atomics[k]; ok {
+			held = int(avInt(v))
+		}
+		switch fn.Name() {
+		case "Lock":
+			if held != 0 {
+				rtPanic("self-deadlock: Lock on a mutex this call path already holds (the call blocks forever)")
+			}
+			ip.Atomics[k] = kInt(-1)
+			return TupleV{}, true
+		case "RLock":
+			if held < 0 {
+				rtPanic("self-deadlock: RLock on a mutex this call path holds for writing")
+			}
+			ip.Atomics[k] = kInt(int64(held + 1))
+			return TupleV{}, true
+		case "Unlock":
+			if held >= 0 {
+				rtPanic("unlock of unlocked mutex")
+			}
+			ip.Atomics[k] = kInt(0)
+			return TupleV{}, true
+		case "RUnlock":
+			if held <= 0 {
+				rtPanic("RUnlock of unlocked RWMutex")
+			}
+			ip.Atomics[k] = kInt(int64(held - 1))
+			return TupleV{}, true
+		case "TryLock":
+			if held != 0 {
+				return kBool(false), true
+			}
+			ip.Atomics[k] = kInt(-1)
+			return kBool(true), true
+		}
+	}
 	// ---- sync/atomic typed values: (*atomic.Int64).Load etc. on an addressable cell
 	if recv := fn.Signature.Recv(); recv != nil && strings.HasPrefix(name, "(*sync/atomic.") && len(args) > 0 {
 		p, ok := args[0].(*Ptr)
